@@ -4,30 +4,35 @@ Technique: runtime monitoring.  The real `Trajectory.make_molecules_whole` / `Tr
 ends in core/trajectory.py, `Topology.find_molecules` / `guess_anchor_molecules`, Cython kernels of image_molecules.pxi,
 `find_closest_contact` of geometry.cpp) run on generated periodic systems; float64 monitors written from the statement
 observe every execution.  Nothing in the verdicts calls the code under test: the lattice is the float64 copy of the
-frame's `unitcell_vectors`, minimum images come from `vlib.oracle.geom.min_image` (reduced basis, 125 images), the
-molecule partition and the image labels come from the generator.
+frame's `unitcell_vectors`; minimum images are d - round(d B^-1) B in float64, which is exact whenever the result is
+shorter than w_min/2 (see `_round_image`; re-derived on a sample with the 125-image search `vlib.oracle.geom.min_image`);
+the molecule partition and the image labels come from the generator.
 
 Workload (`vlib.gen.c11_mols`): chains, rings, branched and fused (ring + chord + tails) molecules, waters in O-H-H and in
 H-H-O atom order, ions, 12-40 atom solutes; every molecule relabelled (natural parent-first / BFS from a random root /
 reversed / random permutation, optionally a permutation of ALL atoms so that molecules interleave), molecule order
 shuffled, bonds inserted into the Topology in random order and orientation; assembled into single-molecule, few-molecule
-and solvated (1-3 solutes + 10-25 waters/ions) systems, plus bond-free ion systems; every cell class of CELL_KINDS, per-frame varying cells,
-1-5 frames.  Molecules are scaled so that their extent (largest intra-molecular distance) is <= 0.42 w_min < w_min/2
+and solvated (1-3 solutes + 10-25 waters/ions) systems, plus bond-free ion systems (thorough tier, 40 % of the cases:
+solutes to 120 atoms, to 60 solvent molecules, to 12 assorted molecules); every cell class of CELL_KINDS, per-frame
+varying cells, 1-5 frames.  Molecules are scaled so that their extent (largest intra-molecular distance) is <= 0.42 w_min < w_min/2
 (w_min = smallest perpendicular width: the statement excludes molecules longer than half the cell), then scattered: a
 random integer lattice shift of up to +-K cells per atom (K in 0..50), per-atom wrapping into the primary cell, a shift
 per molecule, or none.  Small shapes (3-5 atoms: paths, stars, rings, paw, fork) are run under EVERY relabelling
 (exhaustive "bond orderings" scope; n<=4 in the quick tier, n<=5 x all cells in the thorough tier).
 Options: inplace in {False,True}, make_whole in {True,False}, anchors guessed or explicit, other_molecules default or an
-explicit (possibly incomplete) list, sorted_bonds None / the documented sorted list / a parent-first BFS list.
+explicit (possibly incomplete) list, sorted_bonds None / the topology's bonds sorted by first atom / a parent-first BFS
+list (also passed with make_whole=False, where the documentation says it is irrelevant).  The docstring of
+`sorted_bonds` only says "in sorted order" and not which order the walk needs: a bond left split because of the order
+this workload itself supplied is therefore `skip`, not a violation; with sorted_bonds=None the order is mdtraj's choice.
 
 Tolerance.  Everything mdtraj does here is float32: a move is x - (n_c c + n_b b + n_a a) (three rounded products, two
 rounded sums, one rounded subtraction), image_molecules adds one common translation and one more lattice move per
 molecule.  With M = max |coordinate| before/after, Lmax the longest cell vector and |n| <= 2K+3 cells spanned by the
 scattered input, each of those <= 8 roundings contributes at most eps32 (M + (2K+3) Lmax) per component:
     tau = 16 eps32 (M + (2K+3) Lmax) + 1e-6 nm       (per frame)
-A split bond misses its minimum image by at least w_min - 2*0.42 w_min = 0.16 w_min >= 0.03 nm >> 2 tau, so the bond
-monitor cannot be confused by rounding.  Direct consequences (md.compute_distances/angles/dihedrals, periodic=True,
-before vs after) are compared on index tuples whose consecutive atoms have a unique minimum image (d_mic < w_min/2 -
+A split bond misses its minimum image by at least w_min - 2*0.42 w_min = 0.16 w_min; frames where that is not above
+8 tau are skipped, so the bond monitor (threshold 2 tau) cannot be confused by rounding.
+Direct consequences (float64 reference, and md.compute_distances/angles/dihedrals(periodic=True), before vs after) are compared on index tuples whose consecutive atoms have a unique minimum image (d_mic < w_min/2 -
 4 tau; anything else is skipped as outside the domain where "the" minimum-image value is defined), with conditioning
 taken from the float64 reference: distance 4 tau; angle (4 tau / shortest arm + 8 eps32) / sin(theta), skipped for
 sin(theta) < 0.1 (the kernel uses acos); dihedral 8 tau / (shortest bond * smallest sine of the two bond angles), skipped
@@ -38,7 +43,12 @@ Monitors
                                             integer combination of the frame's cell vectors within tau
   whole.bonds / image.bonds                 per bond: plain distance after == minimum-image distance within 2 tau
   image.rigid-non-anchor                    make_whole=False: all atoms of a non-anchor molecule moved by one vector
-  consequence.distance/angle/dihedral       md.compute_*(periodic=True) before == after; float64 references too
+  consequence.distance/angle/dihedral       float64 minimum-image distance/angle/dihedral of sampled index tuples (bonded
+                                            paths and random tuples) unchanged
+  hook.compute_distances/angles/dihedrals   md.compute_*(periodic=True) before == after on the same tuples (counted; a
+                                            difference while the float64 value is unchanged is md.compute_*'s own error,
+                                            e.g. its orthorhombic shortcut for angles within 9e-4 deg of 90: skipped here,
+                                            it is C05-C07's subject)
   untouched.cell-time                       unitcell_lengths/angles/vectors and time of the result bit-identical
   inplace=False.input-untouched             sha of xyz/time/cell of the input unchanged, also after mutating the result
   inplace=False.no-shared-memory            result arrays share no memory with the input's
@@ -75,12 +85,13 @@ RULE = ("cases = (entry point, options, system class, relabelling, scatter mode,
         "case descriptors")
 WORKERS = {"quick": 8, "thorough": 16}
 BUDGET = {"quick": 60, "thorough": 900}
-NCASES = {"quick": 4000, "thorough": 60000}
-FLOORS = {"quick": {"whole.lattice-move": 15000, "whole.bonds": 10000, "image.lattice-move": 20000, "image.bonds": 8000,
-                    "image.rigid-non-anchor": 1500, "consequence.distance": 8000, "consequence.angle": 2000,
-                    "consequence.dihedral": 1000, "untouched.cell-time": 300, "inplace=False.input-untouched": 150,
-                    "inplace=False.no-shared-memory": 150, "inplace=True.returns-self": 150, "inplace.agreement": 300,
-                    "find_molecules.partition": 300}}
+NCASES = {"quick": 5000, "thorough": 100000}
+FLOORS = {"quick": {"whole.lattice-move": 60000, "whole.bonds": 45000, "image.lattice-move": 90000, "image.bonds": 45000,
+                    "image.rigid-non-anchor": 4500, "consequence.distance": 70000, "consequence.angle": 30000,
+                    "consequence.dihedral": 25000, "hook.compute_distances": 70000, "hook.compute_angles": 30000,
+                    "hook.compute_dihedrals": 25000, "untouched.cell-time": 1200, "inplace=False.input-untouched": 1200,
+                    "inplace=False.no-shared-memory": 600, "inplace=True.returns-self": 600, "inplace.agreement": 1200,
+                    "find_molecules.partition": 1200, "oracle.selfcheck": 30000, "call": 1200}}
 ASSUMPTIONS = [
     "the lattice of a frame is the float64 copy of Trajectory.unitcell_vectors of that frame (its agreement with "
     "lengths/angles is C17's subject)",
@@ -124,7 +135,8 @@ def gen_cases(tier, seed):
                    perframe=bool(rng.random() < 0.3), n_frames=int(rng.integers(1, 6)), inplace=bool(rng.random() < 0.5),
                    make_whole=bool(rng.random() < 0.65), anchors="guess" if guess else "explicit",
                    others=str(rng.choice(["default", "default", "all", "subset"])),
-                   sorted_bonds=str(rng.choice(["none", "none", "none", "topology", "bfs"])))
+                   sorted_bonds=str(rng.choice(["none", "none", "none", "topology", "bfs"])),
+                   wide=bool(tier == "thorough" and rng.random() < 0.4))
     yield from _exh_cases(tier, seed, n)
 
 
@@ -377,7 +389,12 @@ def run_case(case, ctx):
         ctx.observe("walk-order-model", "predicts-split" if pred_split.any() else "predicts-whole")
         raw_all = new64[:, bj] - new64[:, bi]
         _, mic_all = _round_image(raw_all, B)
+        any_split = False
         for f in range(nf):
+            if 0.16 * wmin[f] <= 8 * taus[f]:
+                # a split bond misses its minimum image by >= w_min - 2*0.42 w_min; demand that to dwarf the rounding
+                ctx.skip(f"{mon}.bonds", "float32 rounding at this distance from the origin is comparable to the cell width", len(bi))
+                continue
             raw = raw_all[f]
             plain = np.linalg.norm(raw, axis=1)
             mic = mic_all[f]
@@ -415,8 +432,12 @@ def run_case(case, ctx):
                               frame=f, bond=[int(bi[j]), int(bj[j])], cell=B[f], x_old=old64[f, [bi[j], bj[j]]],
                               x_new=new64[f, [bi[j], bj[j]]])
             ctx.ok(f"{mon}.bonds", int((~split).sum()))
-            if mkw:
-                ctx.observe("bonds after the call", "all whole" if not split.any() else "some split")
+            any_split = any_split or bool(split.any())
+            ctx.observe("bonds after the call", "all whole" if not split.any() else "some split")
+        if "perm" in case:
+            roots = int((c11_model.traversal_forest(order, na) == -1).sum())
+            ctx.observe("enumerated labelling", f"{case['system'][4:]}: walk forest {'spanning' if roots == 1 else 'not spanning'}"
+                                                f" -> {'split' if any_split else 'whole'}")
 
     # ---- non-anchor molecules move as units (make_whole=False)
     if op == "image" and not mkw and anchors_idx is not None:
@@ -448,7 +469,7 @@ def run_case(case, ctx):
     if not inplace:
         # mutate the result: the input must not notice
         res.xyz[...] += 1.0
-        res.time[...] += 1.0
+        res.time[...] = (res.time + 1).astype(res.time.dtype)
         res.unitcell_lengths[...] += 1.0
         res.unitcell_angles[...] -= 1.0
         ctx.check(_sha(t) == sha_before, "inplace=False.input-untouched", f"{base}:inplace=False:result-aliases-input",
@@ -486,9 +507,25 @@ def _consequences(md, tr, samp):
 
 
 def _judge_consequences(ctx, entry, s, samp, before, after, old64, new64, B, taus, wmin):
+    """Verdict: the float64 minimum-image distance / angle / dihedral of the sampled tuples is unchanged (monitors
+    consequence.*).  md.compute_*(periodic=True) before/after is observed on the same tuples (monitors hook.compute_*):
+    agreement is counted; a difference while the float64 value did NOT change means md.compute_* itself is off the
+    minimum image on one side (e.g. its orthorhombic shortcut for angles within 9e-4 deg of 90: C05/C06/C07's subject),
+    which is not a statement about re-imaging, so it is skipped and listed under observed['md hook off reference']."""
     nf = old64.shape[0]
     tau = taus[:, None]
     lim = (wmin / 2)[:, None] - 4 * tau
+
+    def hook(name, fn, cond, diff, tol, what):
+        agree = cond & (diff <= tol)
+        off = cond & ~agree
+        ctx.ok(f"hook.{fn}", int(agree.sum()))
+        if off.any():
+            ctx.skip(f"hook.{fn}", f"md.{fn}(periodic=True) differs before/after although the float64 minimum-image {what} "
+                     "is unchanged: the deviation is md's own (subject of C05-C07)", int(off.sum()))
+            ctx.observe("md hook off reference", f"{fn} on {'near-' if np.abs(s.A - 90).max() < 1e-2 and np.abs(s.A - 90).max() > 0 else ''}"
+                                                 f"{'orthorhombic' if np.abs(s.A - 90).max() < 1e-2 else 'skewed'} cell", int(off.sum()))
+
     # distances
     if len(samp["pairs"]):
         Vb, Db = _mic_arms(old64, B, samp["pairs"])
@@ -504,21 +541,17 @@ def _judge_consequences(ctx, entry, s, samp, before, after, old64, new64, B, tau
                           "the monitor's own rounded minimum image disagrees with the 125-image search (harness defect)")
         Va, Da = _mic_arms(new64, B, samp["pairs"])
         Db, Da = Db[:, :, 0], Da[:, :, 0]
-        ref_bad = ((Db < lim) | (Da < lim)) & (np.abs(Db - Da) > 2 * tau)
+        dom = (Db < lim) | (Da < lim)
+        ref_bad = dom & (np.abs(Db - Da) > 2 * tau)
         if ref_bad.any():
             f, j = np.argwhere(ref_bad)[0]
             ctx.violation("consequence.distance", f"{entry}:minimum-image-distance-changed",
                           f"{entry}: float64 minimum-image distance of atoms {samp['pairs'][j].tolist()} changed "
                           f"{Db[f, j]:.6g} -> {Da[f, j]:.6g} nm", frame=int(f))
-        dom = (Db < lim) & ~ref_bad
-        md_bad = dom & (np.abs(before["d"] - after["d"]) > 4 * tau)
-        if md_bad.any():
-            f, j = np.argwhere(md_bad)[0]
-            ctx.violation("consequence.distance", f"{entry}:compute_distances(periodic)-changed",
-                          f"{entry}: md.compute_distances(periodic=True) of atoms {samp['pairs'][j].tolist()} changed "
-                          f"{before['d'][f, j]:.6g} -> {after['d'][f, j]:.6g} nm (float64 minimum image {Db[f, j]:.6g})", frame=int(f))
-        ctx.ok("consequence.distance", int((dom & ~md_bad).sum()))
-        nd = int((~dom & ~ref_bad).sum())
+        good = dom & ~ref_bad
+        ctx.ok("consequence.distance", int(good.sum()))
+        hook("d", "compute_distances", good, np.abs(before["d"] - after["d"]), 4 * tau, "distance")
+        nd = int((~dom).sum())
         if nd:
             ctx.skip("consequence.distance", "pair separation >= w_min/2: minimum image not unique in a skewed cell", nd)
     # angles
@@ -537,19 +570,15 @@ def _judge_consequences(ctx, entry, s, samp, before, after, old64, new64, B, tau
             ctx.violation("consequence.angle", f"{entry}:minimum-image-angle-changed",
                           f"{entry}: float64 minimum-image angle of atoms {samp['tri'][j].tolist()} changed {thb[f, j]:.6g} -> "
                           f"{tha[f, j]:.6g} rad", frame=int(f))
+        good = cond & ~ref_bad
+        ctx.ok("consequence.angle", int(good.sum()))
         sn = np.sin(thb)
-        cond2 = cond & ~ref_bad & (sn > 0.1)
+        cond2 = good & (sn > 0.1)
         tol = (4 * tau / np.where(cond, arm, 1.0) + 8 * geom.EPS32) / np.where(cond2, sn, 1.0)
-        md_bad = cond2 & (np.abs(before["a"] - after["a"]) > tol)
-        if md_bad.any():
-            f, j = np.argwhere(md_bad)[0]
-            ctx.violation("consequence.angle", f"{entry}:compute_angles(periodic)-changed",
-                          f"{entry}: md.compute_angles(periodic=True) of atoms {samp['tri'][j].tolist()} changed "
-                          f"{before['a'][f, j]:.6g} -> {after['a'][f, j]:.6g} rad (tolerance {tol[f, j]:.2g})", frame=int(f))
-        ctx.ok("consequence.angle", int((cond2 & ~md_bad).sum()))
-        nd = int((~cond2 & ~ref_bad).sum())
+        hook("a", "compute_angles", cond2, np.abs(before["a"] - after["a"]), tol, "angle")
+        nd = int((~cond).sum())
         if nd:
-            ctx.skip("consequence.angle", "an arm >= w_min/2 (minimum image not unique), shorter than 100 tau, or sin(angle) < 0.1", nd)
+            ctx.skip("consequence.angle", "an arm >= w_min/2 (minimum image not unique) or shorter than 100 tau", nd)
     # dihedrals
     if len(samp["quad"]):
         Vb, Db = _mic_arms(old64, B, samp["quad"])
@@ -569,13 +598,9 @@ def _judge_consequences(ctx, entry, s, samp, before, after, old64, new64, B, tau
             ctx.violation("consequence.dihedral", f"{entry}:minimum-image-dihedral-changed",
                           f"{entry}: float64 minimum-image dihedral of atoms {samp['quad'][j].tolist()} changed {phb[f, j]:.6g} -> "
                           f"{pha[f, j]:.6g} rad", frame=int(f))
-        md_bad = cond & ~ref_bad & (_wrap_pi(before["h"] - after["h"]) > 2 * tol)
-        if md_bad.any():
-            f, j = np.argwhere(md_bad)[0]
-            ctx.violation("consequence.dihedral", f"{entry}:compute_dihedrals(periodic)-changed",
-                          f"{entry}: md.compute_dihedrals(periodic=True) of atoms {samp['quad'][j].tolist()} changed "
-                          f"{before['h'][f, j]:.6g} -> {after['h'][f, j]:.6g} rad (tolerance {2 * tol[f, j]:.2g})", frame=int(f))
-        ctx.ok("consequence.dihedral", int((cond & ~ref_bad & ~md_bad).sum()))
+        good = cond & ~ref_bad
+        ctx.ok("consequence.dihedral", int(good.sum()))
+        hook("h", "compute_dihedrals", good, _wrap_pi(before["h"] - after["h"]), 2 * tol, "dihedral")
         nd = int((~cond).sum())
         if nd:
             ctx.skip("consequence.dihedral", "a bond >= w_min/2, shorter than 100 tau, or nearly collinear bonds", nd)
